@@ -57,16 +57,10 @@ Lemma term_id : forall s l x rest,
   term (s, (l, TId x) :: rest) = Some (mkafter s [(l, TId x)] (L (l, TId x)), rest).
 Proof.
   intros s l x rest Hj Hd. unfold ND in Hd. cbn [decl_like_from snd] in Hd.
-  apply orb_false_iff in Hd. destruct Hd as [Hd _]. apply orb_false_iff in Hd. destruct Hd as [Hsd Hfp].
+  apply orb_false_iff in Hd. destruct Hd as [Hfp _].
   unfold term. cbn [snd].
   assert (Hz1 : skip_decl (s, (l, TId x) :: rest) = (s, (l, TId x) :: rest)).
-  { unfold skip_decl. destruct (hd_is is_lp (bef s)) eqn:Hlp; [|reflexivity].
-    cbn [andb] in Hsd.
-    destruct (skip_decl_scan [] ((l, TId x) :: rest)) as [[acc l']|] eqn:Hs; [|reflexivity].
-    destruct acc; [|discriminate].
-    cbn [skip_decl_scan snd] in Hs. destruct (hd_is _ rest).
-    - inversion Hs; subst. cbn [app]. unfold set_bef. rewrite st_eta. reflexivity.
-    - apply scan_acc in Hs. cbn in Hs. lia. }
+  { unfold skip_decl. destruct (hd_is is_lp (bef s)); reflexivity. }
   rewrite Hz1. cbn [snd length].
   assert (Hz2 : skip_to_last_name (S (length rest)) (s, (l, TId x) :: rest) = (s, (l, TId x) :: rest)).
   { cbn [skip_to_last_name]. destruct rest as [|t2 r2]; [reflexivity|].
